@@ -16,6 +16,7 @@ before the rules run, so that equivalent spellings reach the rules as one.
       ->  `if <that>: return True` / `return False`   (the expression is bool-valued, so nothing changes)
   K12 constant parts of an f-string are folded into its literal text (`f"({X})"` with X a str constant -> "(...)"); a sum of two
       string constants is one constant
+  K14 `list(filter(lambda v: c, xs))`  ->  `[v for v in xs if c]`
   K8  `not (a or b)` / `not (a and b)` in an if/while test -> De Morgan form with `not` on the atoms; `not a not in b` etc. folded
 
 None of these changes what the code computes; line/column of the rewritten
@@ -48,6 +49,13 @@ class _Expr(ast.NodeTransformer):
                 and not any(isinstance(e, ast.Starred) for e in node.args[0].elts):
             node.args = list(node.args[0].elts)
             return node
+        if isinstance(f, ast.Name) and f.id == "list" and len(node.args) == 1 and not node.keywords and isinstance(node.args[0], ast.Call) \
+                and isinstance(node.args[0].func, ast.Name) and node.args[0].func.id == "filter" and len(node.args[0].args) == 2 \
+                and isinstance(node.args[0].args[0], ast.Lambda) and len(node.args[0].args[0].args.args) == 1 and not node.args[0].args[0].args.defaults:
+            lam, xs = node.args[0].args
+            v = lam.args.args[0].arg
+            comp = ast.ListComp(elt=ast.Name(id=v, ctx=ast.Load()), generators=[ast.comprehension(target=ast.Name(id=v, ctx=ast.Store()), iter=xs, ifs=[lam.body], is_async=0)])
+            return ast.copy_location(comp, node)
         if isinstance(f, ast.Name) and f.id in ("set", "list") and len(node.args) == 1 and not node.keywords and isinstance(node.args[0], ast.GeneratorExp):
             g = node.args[0]
             cls = ast.SetComp if f.id == "set" else ast.ListComp
